@@ -28,7 +28,8 @@ PROBES = {
             "trust:down-reset", "GN", "group-param", "float32", "scripted", "ctor-defaults", "zero-residual-start", "kernel-list-with-None", "trial-loss=+inf", "strategy-reused-by-new-optimizer", "input-form:dict", "input-form:list", "input-form:single"],
     "C07": ["lm:first-trial", "lm:trial>=2", "gn", "weights:RR", "weights:NRR", "weights:full", "weights:refreshed-in-place", "weights:per-call-alternating", "kernel", "triggs",
             "clamp-min-bites", "clamp-max-bites", "frozen-param", "group-param", "vectorize-off", "two-residuals",
-            "unused-columns", "ctor-defaults", "kernel-list-with-None", "data-refreshed-between-calls", "rotation-vector>pi", "input-form:dict", "input-form:list", "input-form:single"],
+            "unused-columns", "ctor-defaults", "kernel-list-with-None", "data-refreshed-between-calls", "rotation-vector>pi", "input-form:dict", "input-form:list", "input-form:single",
+            "one-observation-exactly-explained", "warm-start", "zero-residual-start", "solve:CG"],
 }
 TS = float(os.environ.get("PPSIM_TOLSCALE", "1"))
 EXC = {"RuntimeError": RuntimeError, "ValueError": ValueError, "AssertionError": AssertionError,
@@ -72,7 +73,7 @@ def generate(seed, tier, prop="C08"):
     cfg = {"opt": opt, "strategy": st, "reject": r.choice([0, 1, 2, 3, 5, 16]),
            "min": r.choice([1e-6, 1e-6, 1e-3, 0.5, 5.0]) if prop == "C07" else 1e-6,
            "max": r.choice([1e32, 1e32, 2.0, 50.0]) if prop == "C07" else 1e32,
-           "solver": r.choice(["Cholesky", "Cholesky-upper", "PINV", "LSTSQ"]) if opt == "LM" else r.choice(["PINV", "LSTSQ"]),
+           "solver": r.choice(["Cholesky", "Cholesky-upper", "PINV", "LSTSQ", "CG"]) if opt == "LM" else r.choice(["PINV", "LSTSQ"]),
            "kernel": kern, "corrector": corr,
            "weights": r.choice(["none", "RR", "NRR", "full"]) if (prop == "C07" and not scripted) else
                       r.choice(["none", "none", "RR"]) if not scripted else "none",
@@ -83,6 +84,11 @@ def generate(seed, tier, prop="C08"):
            "target": (not scripted) and r.random() < 0.3, "spec": spec}
     if cfg["max"] < cfg["min"]:
         cfg["max"] = 1e32
+    # where the optimisation starts relative to the data: anywhere / exactly at a zero residual / with one observation
+    # already explained exactly / within 1e-6 .. 1e-8 of the solution (a warm start)
+    cfg["start"] = r.choice(["random", "random", "random", "zero", "one-zero", "near"]) if not scripted else "random"
+    if cfg["start"] != "random":
+        cfg["target"] = True
     ro = rng.stream(seed, "ops")
     n_calls = ro.randint(1, 6 if prop == "C07" else (30 if tier == "thorough" else 14))
     ops = [{"id": i, "op": "step"} for i in range(n_calls)]
@@ -370,9 +376,21 @@ def execute(plan, prop, out, tr):
     targets = None
     if c["target"]:
         targets = [rng.randn(s, ("tgt", j), tuple(o.shape), dtype, 0.3) for j, o in enumerate(outs0)]
-        if rng.H(s, "zero-start") % 6 == 0:
+        start = c.get("start", "random")
+        if start == "zero" or (start == "random" and rng.H(s, "zero-start") % 6 == 0):
             targets = [o.detach().clone() for o in outs0]       # the model starts exactly at a zero residual
             out.probe("zero-residual-start")
+        elif start == "one-zero":
+            for t_, o_ in zip(targets, outs0):
+                if o_.ndim >= 2:
+                    t_.reshape(-1, t_.shape[-1])[0] = o_.detach().reshape(-1, o_.shape[-1])[0]
+                else:
+                    t_.copy_(o_.detach())
+            out.probe("one-observation-exactly-explained")
+        elif start == "near":
+            tiny = [1e-6, 1e-8][rng.H(s, "near") % 2]
+            targets = [o.detach().clone() + tiny * t_ for o, t_ in zip(outs0, targets)]
+            out.probe("warm-start")
     target_arg = None if targets is None else (targets if len(targets) > 1 else targets[0])
     weight = _weights(s, c["weights"], outs0, dtype)
     kern = None
@@ -387,7 +405,7 @@ def execute(plan, prop, out, tr):
         cs = [cls(k) if k is not None else None for k in (kern if isinstance(kern, list) else [kern])]
         corr = cs if len(cs) > 1 else cs[0]
     inner = {"Cholesky": pp.optim.solver.Cholesky, "Cholesky-upper": lambda: pp.optim.solver.Cholesky(upper=True),
-             "PINV": pp.optim.solver.PINV, "LSTSQ": pp.optim.solver.LSTSQ}[c["solver"]]()
+             "PINV": pp.optim.solver.PINV, "LSTSQ": pp.optim.solver.LSTSQ, "CG": pp.optim.solver.CG}[c["solver"]]()
     solver = SolverProxy(inner, model, plan["faults"], out, s, scripted)
     st = c["strategy"]
     strat = None
@@ -435,6 +453,8 @@ def execute(plan, prop, out, tr):
         out.probe("GN" if prop == "C08" else "gn")
     if any(ps["kind"] == "grp" for ps in kinds):
         out.probe("group-param")
+    if any(ps.get("big") for ps in kinds):
+        out.probe("rotation-vector>pi")
     if dtype == torch.float32:
         out.probe("float32")
     if scripted:
@@ -533,7 +553,16 @@ def execute(plan, prop, out, tr):
                     finite = False
             big = max([float(p_.detach().abs().max()) for p_ in model.plist() if p_.numel()] + [0.0])
             if solver.rec and not (bool(torch.isfinite(solver.rec[-1]["A"]).all()) and bool(torch.isfinite(solver.rec[-1]["b"]).all())):
-                finite = False          # the linear system handed to the solver already held inf / NaN
+                # the linear system handed to the solver already held inf / NaN.  From runaway parameters that is a
+                # diverged run; from moderate parameters whose documented system (finite-difference Jacobian, closed-form
+                # corrector) is finite, the step was not the documented solve
+                if prop == "C07" and finite and math.isfinite(big) and big <= 1e6 and \
+                        _ref_system_moderate(c, model, kinds, data, targets, solver.rec[-1]["snap"]):
+                    raise Violation("C07.nonfinite-system", "%s call %d trial %d: the linear system handed to the solver holds "
+                                    "inf / NaN although parameters, residuals and the documented (corrected) Jacobian are "
+                                    "finite and moderate; the step then raised %s" %
+                                    (c["opt"], ci, len(solver.rec) - 1, type(e).__name__), ci, "nonfinite-system")
+                finite = False
             if not finite or not math.isfinite(big) or big > 1e6:
                 # accept-everything configurations (reject=0, tiny damping) can run away to 1e12 rad rotations, where
                 # float32 Jacobians overflow to NaN and modjac's own assertion fires: a diverged run has no verdict
@@ -808,7 +837,78 @@ def _relerr(a, b):
     a = np.asarray(a, dtype=np.float64); b = np.asarray(b, dtype=np.float64)
     if a.shape != b.shape:
         return float("inf")
+    if np.isfinite(b).all() and not np.isfinite(a).all():
+        return float("inf")
     return float(np.abs(a - b).max()) / (1e-300 + float(np.abs(b).max()))
+
+
+def _maxdiff(a, b):
+    """max |a - b|; +inf when a holds inf / NaN where the reference b is finite (a NaN must never compare as 'close')."""
+    a = np.asarray(a, dtype=np.float64); b = np.asarray(b, dtype=np.float64)
+    if np.isfinite(b).all() and not np.isfinite(a).all():
+        return float("inf")
+    return float(np.abs(a - b).max()) if a.size else 0.0
+
+
+# closed-form first derivatives of the kernels (x = squared residual norm), written from the documented formulas
+def _rho1(name, delta, x):
+    d2 = delta * delta
+    if name == "Huber":
+        return np.where(np.sqrt(x) < delta, 1.0, delta / np.sqrt(np.where(x > 0, x, 1.0)))
+    if name == "PseudoHuber":
+        return 1.0 / np.sqrt(x / d2 + 1.0)
+    if name == "Cauchy":
+        return 1.0 / (x / d2 + 1.0)
+    if name == "SoftLOne":
+        return delta / np.sqrt(1.0 / d2 + x)
+    if name == "Arctan":
+        return 1.0 / (1.0 + (x / d2) ** 2)
+    if name == "Scale":
+        return np.full_like(x, min(delta, 1.0))
+    raise ValueError(name)
+
+
+def _ref_fasttriggs(kd, r_, J_):
+    """FastTriggs as documented: R_i <- sqrt(rho'(|R_i|^2)) R_i, the rows of J belonging to item i scaled alike."""
+    R = r_.double().numpy()
+    x = (R * R).sum(-1, keepdims=True)
+    sc = np.sqrt(_rho1(kd["name"], kd["delta"], x))
+    return (sc * R).reshape(-1), np.broadcast_to(sc, R.shape).reshape(-1, 1) * np.asarray(J_, dtype=np.float64)
+
+
+def _ref_corrected(c, R0, Js):
+    Rc, Jc = [], []
+    for j, (r_, J_) in enumerate(zip(R0, Js)):
+        ks_ = c["kernel"]
+        kd = None if not ks_ else (ks_[j] if len(ks_) > 1 else ks_[0])
+        if kd is None:
+            Rc.append(r_.double().numpy().reshape(-1)); Jc.append(np.array(J_, dtype=np.float64)); continue
+        if c["corrector"] == "Triggs":
+            kobj = KERNELS[kd["name"]](kd["delta"])
+            with torch.no_grad():
+                rr, jj = pp.optim.corrector.Triggs(kobj)(R=r_.clone(), J=torch.tensor(J_, dtype=r_.dtype))
+            Rc.append(rr.double().numpy().reshape(-1)); Jc.append(jj.double().numpy().reshape(J_.shape))
+        else:
+            rr, jj = _ref_fasttriggs(kd, r_, J_)
+            Rc.append(rr); Jc.append(jj)
+    return Rc, Jc
+
+
+def _ref_system_moderate(c, model, kinds, data, targets, snap):
+    """True when, at the parameters `snap`, residuals and the documented corrected Jacobian are finite and far from
+    overflow (so a finite linear system is what the documentation promises)."""
+    cur = om.snapshot(model)
+    try:
+        R0, Js, errs, cols = _fd_jacobian(model, kinds, data, targets, snap)
+        if c["corrector"] == "Triggs":
+            return False        # Triggs is a trusted component here: no independent statement about its output
+        Rc, Jc = _ref_corrected(c, R0, Js)
+        vals = [np.abs(v).max() if v.size else 0.0 for v in Rc + Jc]
+        return bool(np.isfinite(vals).all()) and max(vals + [0.0]) < 1e30
+    except Exception:
+        return False
+    finally:
+        om.restore(model, cur)
 
 
 def _c07_call(c, model, kinds, data, targets, weight, opt, srec, trec, p_s, p_e, damp0, out, ci, plan, tr):
@@ -820,26 +920,12 @@ def _c07_call(c, model, kinds, data, targets, weight, opt, srec, trec, p_s, p_e,
         out.probe("two-residuals")
     if not c["vectorize"]:
         out.probe("vectorize-off")
-    # through the configured corrector objects (trusted components)
     # which corrector belongs to which residual is decided here, from the configuration (kernel i -> its corrector,
-    # no kernel -> none); only the corrector classes themselves are trusted components
-    def ref_corrector(j):
-        ks_ = c["kernel"]
-        if not ks_:
-            return None
-        kd = ks_[j] if len(ks_) > 1 else ks_[0]
-        if kd is None:
-            return None
-        kobj = KERNELS[kd["name"]](kd["delta"])
-        return (pp.optim.corrector.Triggs if c["corrector"] == "Triggs" else pp.optim.corrector.FastTriggs)(kobj)
-    Rc, Jc = [], []
-    for j, (r_, J_) in enumerate(zip(R0, Js)):
-        cor = ref_corrector(j)
-        if cor is None:
-            Rc.append(r_.double().numpy().reshape(-1)); Jc.append(np.array(J_, dtype=np.float64)); continue
-        with torch.no_grad():
-            rr, jj = cor(R=r_.clone(), J=torch.tensor(J_, dtype=r_.dtype))
-        Rc.append(rr.double().numpy().reshape(-1)); Jc.append(jj.double().numpy().reshape(J_.shape))
+    # no kernel -> none).  FastTriggs (also what "auto" means) is re-computed from the closed-form kernel derivatives;
+    # only the Triggs class is used as a trusted component
+    Rc, Jc = _ref_corrected(c, R0, Js)
+    if not all(np.isfinite(v).all() for v in Rc + Jc):
+        out.declined("C07(reference non-finite)"); return
     Rv = np.concatenate(Rc); Jm = np.concatenate(Jc, axis=0)
     jscale = float(np.abs(Jm).max()) + 1e-300
     fd_rel = max(errs) / jscale
@@ -860,7 +946,7 @@ def _c07_call(c, model, kinds, data, targets, weight, opt, srec, trec, p_s, p_e,
     kctx = "%s:%s" % (c["opt"], "frozen" if any(ps.get("frozen") for ps in kinds) else "free")
     # ---- strategy seam: J and R as documented (post-corrector)
     for k, t in enumerate(trec):
-        if _relerr(t["J"].double().numpy(), Jm) > TOLJ or float(np.abs(t["R"].double().numpy().reshape(-1) - Rv).max()) > 1e-9 * (1 + np.abs(Rv).max()):
+        if _relerr(t["J"].double().numpy(), Jm) > TOLJ or _maxdiff(t["R"].double().numpy().reshape(-1), Rv) > 1e-9 * (1 + np.abs(Rv).max()):
             raise Violation("C07.jacobian", "call %d trial %d: the Jacobian / residual handed to the strategy differs from "
                             "the finite-difference tangent-space Jacobian by %.3e relative" %
                             (ci, k, _relerr(t["J"].double().numpy(), Jm)), ci, "jacobian:" + kctx)
@@ -871,7 +957,7 @@ def _c07_call(c, model, kinds, data, targets, weight, opt, srec, trec, p_s, p_e,
         if A.shape != WJ.shape or _relerr(A, WJ) > TOLJ:
             raise Violation("C07.gn-system", "GN call %d: solver saw A with shape %s, documented W J has shape %s; relative "
                             "difference %.3e" % (ci, A.shape, WJ.shape, _relerr(A, WJ)), ci, "gn-system:A:" + kctx)
-        if float(np.abs(b + WR).max()) > TOLJ * (1 + np.abs(WR).max()):
+        if _maxdiff(b, -WR) > TOLJ * (1 + np.abs(WR).max()):
             raise Violation("C07.gn-system", "GN call %d: solver saw b != -W R (max diff %.3e)" %
                             (ci, float(np.abs(b + WR).max())), ci, "gn-system:b:" + kctx)
         if rs_["fault"] is None and rs_["honest"] is not None:
@@ -904,14 +990,14 @@ def _c07_call(c, model, kinds, data, targets, weight, opt, srec, trec, p_s, p_e,
             if A.shape != Aref.shape:
                 raise Violation("C07.lm-system", "LM call %d trial %d: A has shape %s, documented %s (columns: non-frozen "
                                 "parameters)" % (ci, k, A.shape, Aref.shape), ci, "lm-system:shape:" + kctx)
-            offd = float(np.abs(A - Aref).max())
+            offd = _maxdiff(A, Aref)
             if offd > 3 * TOLJ * ascale:
                 dA, dR = np.diag(A), np.diag(Aref)
                 which = "diagonal" if float(np.abs((A - np.diag(dA)) - (Aref - np.diag(dR))).max()) <= 3 * TOLJ * ascale else "matrix"
                 raise Violation("C07.lm-system", "LM call %d trial %d: A differs from clampdiag(J^T W J, min, max) damped "
                                 "%d time(s) (lambda now %.3g) by %.3e relative (%s)" %
                                 (ci, k, k + 1, lam, offd / ascale, which), ci, "lm-system:A:%s:%s" % (which, "first" if k == 0 else "later"))
-            if float(np.abs(b - b0).max()) > 3 * TOLJ * (1 + np.abs(b0).max()):
+            if _maxdiff(b, b0) > 3 * TOLJ * (1 + np.abs(b0).max()):
                 raise Violation("C07.lm-system", "LM call %d trial %d: b != -J^T W R (max diff %.3e, scale %.3e)" %
                                 (ci, k, float(np.abs(b - b0).max()), np.abs(b0).max()), ci, "lm-system:b")
             if rs_.get("raised"):
@@ -923,6 +1009,17 @@ def _c07_call(c, model, kinds, data, targets, weight, opt, srec, trec, p_s, p_e,
                 if ev[0] <= 1e-8 * ev[-1]:
                     # clamping the diagonal can make A indefinite; what a solver does with that is C10's business
                     out.declined("C07.solve(A not positive definite)")
+                elif type(getattr(opt.solver, "inner", None)).__name__ == "CG":
+                    # an iterative solver: the documented stopping rule is ||b - A x|| < tol ||b|| (tol = 1e-5 by default)
+                    # within 10 n iterations; judged where conjugate gradients reaches that comfortably
+                    if ev[-1] / ev[0] > 1e4:
+                        out.declined("C07.solve(CG on an ill-conditioned system)")
+                    else:
+                        out.probe("solve:CG")
+                        r2, b2 = float(np.linalg.norm(A @ Dh - b)), float(np.linalg.norm(b))
+                        if not r2 <= 1.001e-5 * b2 + 1e-11 * (np.abs(A).max() * np.abs(Dh).max() * len(b) + b2):
+                            raise Violation("C07.solve", "LM call %d trial %d: the CG step leaves ||A delta - b|| = %.3e with "
+                                            "||b|| = %.3e (documented stopping rule: below 1e-5 ||b||)" % (ci, k, r2, b2), ci, "solve:cg")
                 elif res > 1e-7 * TS * (np.abs(A).max() * np.abs(Dh).max() + np.abs(b).max() + 1e-300) * max(1.0, np.sqrt(np.linalg.cond(A)) * 1e-3):
                     raise Violation("C07.solve", "LM call %d trial %d: the step does not solve A delta = b (residual %.3e)"
                                     % (ci, k, res), ci, "solve")
